@@ -39,7 +39,8 @@ import tempfile
 
 from vplib import common, oracle, genprog
 
-FEATURES = {"fun", "match", "for", "while", "list", "tuple", "enum", "break", "return"}     # no "closure"
+FEATURES = {"fun", "match", "for", "while", "list", "tuple", "enum", "break", "return", "aclosure"}
+# no "closure" (unannotated lambdas); "aclosure" = fully annotated lambdas with an early return
 TICK_LIMIT = 20000
 MUTANTS_PER_BASE = 4
 SHRINK_PER_CLASS = 2          # violations shrunk, confirmed on the CLI and reported per key (shortest first)
@@ -516,7 +517,21 @@ def m_no_such_field(T, r):
     return _m_suffix(T, r, ".nofield")
 
 
+def m_return_swap(T, r):
+    """`return <literal or variable>` -> `return <literal of another type>` (an early return of the wrong type)."""
+    c = [i for i in T.sig if T.t[i] == "return" and T.tok(i, 1) not in ("}", "")]
+    if not c:
+        return None
+    i = c[r.randrange(len(c))]
+    a = T.nb(i, 1)
+    if a is None or T.tok(a, 1) != "}":
+        return None
+    lits = [x for x in ("7", '"rs"', "True", "[1]") if x != T.t[a]]
+    return T.splice(a, a, lits[r.randrange(len(lits))])
+
+
 MUTATIONS = [
+    ("return-swap", m_return_swap),
     ("literal-swap", m_literal_swap),
     ("drop-arg", m_drop_arg),
     ("add-arg", m_add_arg),
@@ -532,7 +547,7 @@ MUTATIONS = [
 ]
 
 
-WEIGHTS = {"literal-swap": 3, "rename-other-var": 3}      # the other kinds weigh 1
+WEIGHTS = {"literal-swap": 3, "rename-other-var": 3, "return-swap": 2}      # the other kinds weigh 1
 
 
 def mutants(rng, src, k=MUTANTS_PER_BASE):
@@ -558,7 +573,7 @@ _FUN_SIG = re.compile(r"\bfun\b\s*(\w*)\s*\(([^)]*)\)\s*(:?)")
 def fully_annotated(src):
     """Every `fun` has a name, annotated parameters and a return annotation (the property's precondition)."""
     for m in _FUN_SIG.finditer(src):
-        if not m.group(1) or not m.group(3):
+        if not m.group(3):          # anonymous functions count when they are annotated too
             return False
         ps = m.group(2).strip()
         if ps and not all(":" in p for p in ps.split(",")):
